@@ -1194,6 +1194,14 @@ def f(l, n):
     return out, l
 ''')
 
+corpus('''
+def f(l, n):
+    c = [l[i] + n for i in range(len(l))]
+    d = [x * 2 for x in c]
+    e = [(x - 1) * y for x, y in zip(c, d)]
+    return d, e, sum(x + 1 for x in c)
+''')
+
 # ---- hand-written rewrites of corpus entries in the shapes the control-flow normal forms absorb: some keep the behaviour, some do
 # not (the mutation operators do not produce these shapes).  Each is treated like a mutant: accepted => must behave the same.
 VARIANTS = []
@@ -1537,6 +1545,42 @@ def f(l, n):
         if len(l) < 9:
             l.append(x + 1)
     return out, l
+''')
+
+variant('p110', '''
+def f(l, n):
+    d = [(l[i] + n) * 2 for i in range(len(l))]
+    c = [l[i] + n for i in range(len(l))]
+    e = [(x - 1) * y for x, y in zip(c, d)]
+    return d, e, sum(x + 1 for x in c)
+''')
+variant('p110', '''
+def f(l, n):
+    d = [(l[i] + n) * 2 for i in range(len(l) - 1)]
+    c = [l[i] + n for i in range(len(l))]
+    e = [(x - 1) * y for x, y in zip(c, d)]
+    return d, e, sum(x + 1 for x in c)
+''')
+variant('p110', '''
+def f(l, n):
+    d = [l[i] * 2 + n for i in range(len(l))]
+    c = [l[i] + n for i in range(len(l))]
+    e = [(x - 1) * y for x, y in zip(c, d)]
+    return d, e, sum(x + 1 for x in c)
+''')
+variant('p110', '''
+def f(l, n):
+    c = [l[i] + n for i in range(len(l))]
+    d = [c[i] * 2 for i in range(len(c))]
+    e = [(c[i] - 1) * d[i] for i in range(len(c))]
+    return d, e, sum(l[i] + n + 1 for i in range(len(l)))
+''')
+variant('p110', '''
+def f(l, n):
+    c = [l[i] + n for i in range(len(l))]
+    d = [c[i] * 2 for i in range(len(c))]
+    e = [(c[i] - 1) * d[i - 1] for i in range(len(c))]
+    return d, e, sum(l[i] + n + 1 for i in range(len(l)))
 ''')
 
 # ---- input generation by parameter name ----------------------------------------------------------------------------------------
